@@ -70,12 +70,41 @@ def workdir(pid, clean=True):
 
 # ----------------------------------------------------------------------------- Go harness
 
-def write_overlay(path):
-    """overlay: every /repo/*_test.go hidden, every /verif/harness/zz_vf_*_test.go added"""
+# Harness files are compiled per check, so that a renamed unexported identifier breaks the tie of
+# the checks that use it and not of every check.
+HARNESS_GROUPS = {
+    "common": ["zz_vf_common_test.go"],
+    "cache": ["zz_vf_internals_test.go", "zz_vf_cache_test.go", "zz_vf_cache_race_test.go", "zz_vf_internals_lru_test.go"],
+    "world": ["zz_vf_world_provider_test.go", "zz_vf_world_core_test.go", "zz_vf_world_test.go",
+              "zz_vf_world_profiles_test.go", "zz_vf_internals_world_test.go"],
+    "verify": ["zz_vf_verify_test.go", "zz_vf_internals_test.go"],
+    "concurrent": ["zz_vf_concurrent_test.go"],
+    "jwt": ["zz_vf_jwt_test.go", "zz_vf_internals_jwt_test.go"],
+    "limiter": ["zz_vf_limiter_test.go", "zz_vf_internals_limiter_test.go"],
+    "discovery": ["zz_vf_discovery_test.go", "zz_vf_internals_discovery_test.go"],
+    "misc": ["zz_vf_internals_misc_test.go", "zz_vf_escape_test.go", "zz_vf_cookiesize_test.go", "zz_vf_cryptoparams_test.go"],
+}
+TEST_GROUPS = {
+    "TestVF_Cache": ["common", "cache"], "TestVF_CacheRace": ["common", "cache"],
+    "TestVF_World": ["common", "world"], "TestVF_Verify": ["common", "world", "verify"],
+    "TestVF_Concurrent": ["common", "world", "concurrent"],
+    "TestVF_Jwt": ["common", "jwt"], "TestVF_Limiter": ["common", "limiter"], "TestVF_Discovery": ["common", "discovery"],
+    "TestVF_Escape": ["common", "world", "misc"], "TestVF_CookieSize": ["common", "world", "misc"],
+    "TestVF_CryptoParams": ["common", "world", "misc"],
+}
+
+
+def write_overlay(path, test=None):
+    """overlay: every /repo/*_test.go hidden; the harness files the given test needs (all of them if unknown) added"""
     rep = {}
     for f in glob.glob(os.path.join(REPO, "*_test.go")):
         rep[f] = ""
-    for f in sorted(glob.glob(os.path.join(HARNESS, "zz_vf_*_test.go"))):
+    groups = TEST_GROUPS.get(test)
+    if groups:
+        files = sorted(set(os.path.join(HARNESS, f) for g in groups for f in HARNESS_GROUPS[g]))
+    else:
+        files = sorted(glob.glob(os.path.join(HARNESS, "zz_vf_*_test.go")))
+    for f in files:
         rep[os.path.join(REPO, os.path.basename(f))] = f
     with open(path, "w") as fh:
         json.dump({"Replace": rep}, fh)
@@ -91,7 +120,7 @@ class HarnessError(Exception):
 def run_harness(test, outdir, env=None, race=False, timeout=900, extra_args=None):
     """Runs `go test -run ^test$` on /repo's working tree + the harness.  Returns stdout+stderr."""
     ov = os.path.join(outdir, "overlay.json")
-    write_overlay(ov)
+    write_overlay(ov, test)
     e = dict(os.environ)
     e.update(GOENV)
     e["VERIF_OUT"] = outdir
